@@ -428,17 +428,21 @@ pub fn gen_stream(r: &mut Rng, cfg: &StreamCfg, nonce: &str) -> Vec<TracingEvent
         g.sites.push((id, nf, is_span));
         datas.push((id, d.clone()));
         // most call sites are announced up front, some lazily before first use, some never
-        if r.chance(80) {
+        if cfg.bad == 0 || r.chance(80) {
             evs.push(TracingEvent::NewCallSite { id, data: d });
         }
     }
     for _ in 0..cfg.len {
         let bad = cfg.bad;
-        match r.below(20) {
+        let mut choice = r.below(20);
+        if bad == 0 && g.handles.is_empty() && (4..=15).contains(&choice) {
+            choice = 0;
+        }
+        match choice {
             0..=3 => {
                 let (m, nf, _) = *r.pick(&g.sites);
                 let metadata_id = if r.chance(bad) { 999 } else { m };
-                let parent_id = if cfg.explicit_parents && r.chance(30) { Some(g.pick_span(r, bad)) } else { None };
+                let parent_id = if cfg.explicit_parents && r.chance(30) && (bad > 0 || !g.handles.is_empty()) { Some(g.pick_span(r, bad)) } else { None };
                 let max = if r.chance(bad) { 40 } else { nf.min(32).max(2) };
                 let id = g.next;
                 g.next += 1;
@@ -490,7 +494,7 @@ pub fn gen_stream(r: &mut Rng, cfg: &StreamCfg, nonce: &str) -> Vec<TracingEvent
             16 | 17 => {
                 let (m, nf, _) = *r.pick(&g.sites);
                 let metadata_id = if r.chance(bad) { 998 } else { m };
-                let parent = if cfg.explicit_parents && r.chance(30) { Some(g.pick_span(r, bad)) } else { None };
+                let parent = if cfg.explicit_parents && r.chance(30) && (bad > 0 || !g.handles.is_empty()) { Some(g.pick_span(r, bad)) } else { None };
                 let max = if r.chance(bad) { 40 } else { nf.min(32).max(2) };
                 evs.push(TracingEvent::NewEvent { metadata_id, parent, values: gen_values(r, nf, max, bad > 0) });
             }
